@@ -13,6 +13,7 @@ var props = map[string]struct {
 	level string
 	fn    func(*h.Run)
 }{
+	"dbg-c20w": {"other", h.DebugC20W},
 	"dbg-checkcache": {"other", h.DebugCheckCache},
 	"dbg-itercache": {"other", h.DebugIterCache},
 	"dbg-reduce": {"other", h.DebugReduce},
